@@ -430,7 +430,7 @@ func h2ValidStream(rng *lab.Rand) []byte {
 }
 
 func c08H2(c *lab.Ctx) {
-	c.Rule("HTTP/2: valid connection streams (preface, SETTINGS, HEADERS(+CONTINUATION, padding), DATA, PING, WINDOW_UPDATE, RST, PRIORITY built with x/net/http2) corrupted by the field grid over the first 96 bytes after the preface and over every frame header, an exhaustive grid of padded HEADERS / DATA / PUSH_PROMISE frames (payload length 0..16 x flag combinations of PADDED, PRIORITY, END_HEADERS, END_STREAM x every Pad Length 0..len+2, 255), all type/flag byte values, truncation, splices, random; through the real server stream connection Dispatch (whole and in two chunks) under recover + watchdog + allocation meter; HPACK decoder alone on corrupted header blocks; distinct = (target, corruption kind, outcome)")
+	c.Rule("HTTP/2: valid connection streams (preface, SETTINGS, HEADERS(+CONTINUATION, padding), DATA, PING, WINDOW_UPDATE, RST, PRIORITY built with x/net/http2) corrupted by the field grid over the first 96 bytes after the preface and over every frame header, an exhaustive grid of padded HEADERS / DATA / PUSH_PROMISE frames (payload length 0..16 x flag combinations of PADDED, PRIORITY, END_HEADERS, END_STREAM x every Pad Length 0..len+2, 255), all type/flag byte values, truncation, splices, random; through the real server stream connection Dispatch (whole and in two chunks) under recover + watchdog + allocation meter; HPACK decoder alone on corrupted header blocks and on an exhaustive grid of HPACK integers (every integer position x boundary values up to 2^64-1, overlong and truncated encodings); distinct = (target, corruption kind, outcome)")
 	rng := c.Rand("h2")
 	w := &c08Watch{}
 	w.start(c, "C08")
@@ -651,6 +651,67 @@ func c08H2(c *lab.Ctx) {
 			c.Count("outcome:hpack:"+kind+"/"+out, 1)
 		}
 		tryH("valid", blk)
+		if bi == c.Batch {
+			// exhaustive small grid: every place an HPACK integer occurs (index of an indexed field, name index of the three
+			// literal forms, table size update, string lengths) x boundary values 0, prefix max, 2^7k boundaries, 2^31, 2^32, 2^53,
+			// 2^63-1, 2^63, 2^64-1 (the largest 10-byte varints), one more continuation byte (overflow), and a truncated varint
+			vals := []uint64{0, 1, 14, 15, 16, 30, 31, 32, 61, 62, 63, 64, 126, 127, 128, 254, 255, 256, 16383, 16384, 1<<21 - 1, 1 << 21, 1<<28 - 1, 1 << 28,
+				1<<31 - 1, 1 << 31, 1<<32 - 1, 1 << 32, 1 << 53, 1<<63 - 1, 1 << 63, 1<<63 + 1, 1<<64 - 1}
+			hint := func(first byte, n uint, v uint64, extra int) []byte {
+				max := uint64(1)<<n - 1
+				if v < max && extra == 0 {
+					return []byte{first | byte(v)}
+				}
+				out := []byte{first | byte(max)}
+				r := v - max
+				if v < max {
+					r = 0
+				}
+				for r >= 128 {
+					out = append(out, byte(r&0x7f)|0x80)
+					r >>= 7
+				}
+				for k := 0; k < extra; k++ { // non-minimal / overlong encodings: continuation bytes carrying zero
+					out = append(out, byte(r)|0x80)
+					r = 0
+				}
+				return append(out, byte(r))
+			}
+			forms := []struct {
+				name  string
+				first byte
+				n     uint
+				tail  []byte // what follows the integer in a well-formed field
+			}{
+				{"indexed", 0x80, 7, nil},
+				{"literal-incremental-name-index", 0x40, 6, []byte{0x01, 'v'}},
+				{"literal-without-indexing-name-index", 0x00, 4, []byte{0x01, 'v'}},
+				{"literal-never-indexed-name-index", 0x10, 4, []byte{0x01, 'v'}},
+				{"table-size-update", 0x20, 5, nil},
+			}
+			for _, f := range forms {
+				for _, v := range vals {
+					for _, extra := range []int{0, 1, 2} {
+						in := append(hint(f.first, f.n, v, extra), f.tail...)
+						tryH("int-grid/"+f.name, in)
+						tryH("int-grid-suffix/"+f.name, append(append([]byte(nil), blk...), in...))
+						if len(in) > 2 {
+							tryH("int-grid-truncated/"+f.name, in[:len(in)-len(f.tail)-1])
+						}
+					}
+				}
+			}
+			// string lengths: name length and value length of a new-name literal, plain and huffman flag
+			for _, hf := range []byte{0x00, 0x80} {
+				for _, v := range vals {
+					for _, extra := range []int{0, 1} {
+						nameLen := hint(hf, 7, v, extra)
+						tryH("int-grid/name-length", append(append([]byte{0x40}, nameLen...), 'n', 0x01, 'v'))
+						tryH("int-grid/value-length", append(append([]byte{0x40, 0x01, 'n'}, nameLen...), 'v'))
+					}
+				}
+			}
+		}
 		c08Inputs(brng, blk, bi%4 == 0, tryH)
 		for _, h := range hostile {
 			tryH("hostile", h)
